@@ -81,6 +81,14 @@ let () =
           | "opttol", [tp; td; tc; tv; x; s; y; d; v] ->
             let t = { Model.tp = q_of_string tp; Model.td = q_of_string td; Model.tc = q_of_string tc; Model.tv = q_of_string tv } in
             b (Model.check_opt_tol t p (vec x) (vec s) (vec y) (vec d) (q_of_string v))
+          | "gate", [x; y; d; rst; cst] ->
+            (* the four violation functions of the in-tree gate on injected vectors: max and sum of each *)
+            let stat c = match c with 'U' -> Model.ON_UPPER | 'L' -> Model.ON_LOWER | 'F' -> Model.FIXED | 'Z' -> Model.ZERO
+                                      | 'B' -> Model.BASIC | _ -> Model.UNDEFINED in
+            let stats s = List.map stat (List.filter (fun c -> c <> ',') (List.init (String.length s) (String.get s))) in
+            let pr (a, b) = string_of_q (Model.qred a) ^ "," ^ string_of_q (Model.qred b) in
+            String.concat ";" [ pr (Model.bound_violation p (vec x)); pr (Model.row_violation p (vec x));
+                                pr (Model.dual_violation p (stats rst) (vec y)); pr (Model.redcost_violation p (stats cst) (vec d)) ]
           | "driver", [ps; fs; tr] -> driver_query ps fs tr
           | "driver", [ps; fs] -> driver_query ps fs ""
           | _ -> "badquery" in
